@@ -4,7 +4,7 @@
    GrammarProofsBrace.v (C family) to `items_of`: here fd_hend may be smaller than fd_open
    (throws clause, return type) and fd_name may be larger than fd_start (function / const). *)
 From Verif Require Import Base Regex Token TokEngine Headers Blocks Spec HeaderSpec LexShapes Grammar GrammarAll.
-From Verif Require Import GrammarProofsParen GrammarProofsBrace GrammarAllProofsTok.
+From Verif Require Import GrammarProofsParen GrammarProofsBrace GrammarAllProofsTok GrammarAllProofsCit.
 From Coq Require Import Sorted.
 Open Scope nat_scope.
 
@@ -13,13 +13,15 @@ Lemma stmt_tail post semi : inner post -> is_symbol semi semicolon = true -> sim
 Proof. intros H1 H2. exists post, semi. auto. Qed.
 
 (* ---------- brace balance ---------- *)
-Theorem items_of_balanced l off ts ds : items_of l off ts ds -> balanced ts.
+Theorem items_of_balanced Pc Ph l off ts ds : citems Pc Ph l off ts ds -> balanced ts.
 Proof.
   induction 1 as [off|off s r ds Hs Hr IH
                  |off kw words cond o body c r ds1 ds2 Hkw Hwords Hcond Hnt Ho Hc Hb IHb Hr IHr
                  |off pre1 o1 flat c1 post1 semi r ds Hpre1 Ho1 Hflat1 Hc1 Hpost1 Hsemi Hr IH
                  |off a tail o2 body2 c2 post2 semi2 r ds1 ds2 Hjs Hane Hop Hlast Htail Ho2 Hc2 Hpost2 Hsemi2 Hb2 IHb2 Hr2 IHr2
-                 |off pre hd nm_off hend_off o body c r ds1 ds2 Hpre Hhd Ho Hc Hb IHb Hflat Hr IHr].
+                 |off pre3 kn nm3 gs3 o3 body3 c3 post3 semi3 r ds1 ds2 Hl3 Hpre3 Hkn Hnm3 Hgs3 Ho3 Hc3 Hb3 IHb3 Hpost3 Hsemi3 Hr3 IHr3
+                 |off pre3 kn nm3 gs3 o3 body3 c3 post3 semi3 r ds1 ds2 Hl3 Hpre3 Hkn Hnm3 Hgs3 Ho3 Hc3 Hfl3 Eds Hpost3 Hsemi3 Hr3 IHr3
+                 |off pre hd nm_off hend_off o body c r ds1 ds2 Hpre Hhd HPh Ho Hc Hb IHb Hflat Hr IHr].
   - apply balanced_nil.
   - apply balanced_app; [|exact IH]. apply brace_free_balanced, simple_stmt_brace_free, Hs.
   - replace (kw :: words ++ cond ++ o :: body ++ c :: r) with ([kw] ++ words ++ cond ++ (o :: body ++ [c]) ++ r)
@@ -44,6 +46,22 @@ Proof.
     apply balanced_app; [apply brace_free_balanced, rparens_brace_free, Hpost2|].
     apply balanced_app; [|exact IHr2].
     apply nb_balanced. split; [apply semi_not_lbrace | apply semi_not_rbrace]; exact Hsemi2.
+  - replace (pre3 ++ kn :: nm3 :: gs3 ++ o3 :: body3 ++ c3 :: post3 ++ semi3 :: r) with (pre3 ++ [kn] ++ [nm3] ++ gs3 ++ (o3 :: body3 ++ [c3]) ++ (post3 ++ [semi3]) ++ r)
+      by (norm_app; reflexivity).
+    apply balanced_app; [apply brace_free_balanced, plains_brace_free, Hpre3|].
+    apply balanced_app; [apply nb_balanced; eapply kw_nb; exact Hkn|].
+    apply balanced_app; [apply nb_balanced, name_nb, Hnm3|].
+    apply balanced_app; [apply brace_free_balanced, groups_brace_free, Hgs3|].
+    apply balanced_app; [apply balanced_block; assumption|].
+    apply balanced_app; [|exact IHr3]. apply brace_free_balanced, simple_stmt_brace_free, stmt_tail; assumption.
+  - replace (pre3 ++ kn :: nm3 :: gs3 ++ o3 :: body3 ++ c3 :: post3 ++ semi3 :: r) with (pre3 ++ [kn] ++ [nm3] ++ gs3 ++ (o3 :: body3 ++ [c3]) ++ (post3 ++ [semi3]) ++ r)
+      by (norm_app; reflexivity).
+    apply balanced_app; [apply brace_free_balanced, plains_brace_free, Hpre3|].
+    apply balanced_app; [apply nb_balanced; eapply kw_nb; exact Hkn|].
+    apply balanced_app; [apply nb_balanced, name_nb, Hnm3|].
+    apply balanced_app; [apply brace_free_balanced, groups_brace_free, Hgs3|].
+    apply balanced_app; [apply balanced_block; try assumption; apply brace_free_balanced, plains_brace_free, Hfl3|].
+    apply balanced_app; [|exact IHr3]. apply brace_free_balanced, simple_stmt_brace_free, stmt_tail; assumption.
   - replace (pre ++ hd ++ o :: body ++ c :: r) with (pre ++ hd ++ (o :: body ++ [c]) ++ r)
       by (norm_app; reflexivity).
     apply balanced_app; [apply brace_free_balanced, prefix_brace_free, (prefix_words_toks l), Hpre|].
@@ -52,14 +70,16 @@ Proof.
 Qed.
 
 (* ---------- the shape clauses ---------- *)
-Theorem items_of_shape l off ts ds : items_of l off ts ds ->
+Theorem items_of_shape Pc Ph l off ts ds : citems Pc Ph l off ts ds ->
   forall pre post, length pre = off -> Forall (shapeP (pre ++ ts ++ post)) ds.
 Proof.
   induction 1 as [off|off s r ds Hs Hr IH
                  |off kw words cond o body c r ds1 ds2 Hkw Hwords Hcond Hnt Ho Hc Hb IHb Hr IHr
                  |off pre1 o1 flat c1 post1 semi r ds Hpre1 Ho1 Hflat1 Hc1 Hpost1 Hsemi Hr IH
                  |off a tail o2 body2 c2 post2 semi2 r ds1 ds2 Hjs Hane Hop Hlast Htail Ho2 Hc2 Hpost2 Hsemi2 Hb2 IHb2 Hr2 IHr2
-                 |off pre0 hd nm_off hend_off o body c r ds1 ds2 Hpre Hhd Ho Hc Hb IHb Hflat Hr IHr];
+                 |off pre3 kn nm3 gs3 o3 body3 c3 post3 semi3 r ds1 ds2 Hl3 Hpre3 Hkn Hnm3 Hgs3 Ho3 Hc3 Hb3 IHb3 Hpost3 Hsemi3 Hr3 IHr3
+                 |off pre3 kn nm3 gs3 o3 body3 c3 post3 semi3 r ds1 ds2 Hl3 Hpre3 Hkn Hnm3 Hgs3 Ho3 Hc3 Hfl3 Eds Hpost3 Hsemi3 Hr3 IHr3
+                 |off pre0 hd nm_off hend_off o body c r ds1 ds2 Hpre Hhd HPh Ho Hc Hb IHb Hflat Hr IHr];
     intros pre post Hlen.
   - constructor.
   - replace (pre ++ (s ++ r) ++ post) with ((pre ++ s) ++ r ++ post) by (norm_app; reflexivity).
@@ -81,6 +101,17 @@ Proof.
     + replace (pre ++ (a ++ tail ++ o2 :: body2 ++ c2 :: post2 ++ semi2 :: r) ++ post)
         with ((pre ++ a ++ tail ++ o2 :: body2 ++ c2 :: post2 ++ [semi2]) ++ r ++ post) by (norm_app; reflexivity).
       apply IHr2; norm_len; lia.
+  - apply Forall_app. split.
+    + replace (pre ++ (pre3 ++ kn :: nm3 :: gs3 ++ o3 :: body3 ++ c3 :: post3 ++ semi3 :: r) ++ post)
+        with ((pre ++ pre3 ++ kn :: nm3 :: gs3 ++ [o3]) ++ body3 ++ (c3 :: post3 ++ semi3 :: r ++ post)) by (norm_app; reflexivity).
+      apply IHb3; norm_len; lia.
+    + replace (pre ++ (pre3 ++ kn :: nm3 :: gs3 ++ o3 :: body3 ++ c3 :: post3 ++ semi3 :: r) ++ post)
+        with ((pre ++ pre3 ++ kn :: nm3 :: gs3 ++ o3 :: body3 ++ c3 :: post3 ++ [semi3]) ++ r ++ post) by (norm_app; reflexivity).
+      apply IHr3; norm_len; lia.
+  - subst ds1. cbn [app].
+    replace (pre ++ (pre3 ++ kn :: nm3 :: gs3 ++ o3 :: body3 ++ c3 :: post3 ++ semi3 :: r) ++ post)
+      with ((pre ++ pre3 ++ kn :: nm3 :: gs3 ++ o3 :: body3 ++ c3 :: post3 ++ [semi3]) ++ r ++ post) by (norm_app; reflexivity).
+    apply IHr3; norm_len; lia.
   - destruct (fhead_offsets _ _ _ _ Hhd) as [Hn Hh].
     constructor; [|apply Forall_app; split].
     + unfold shapeP. cbn [fd_start fd_name fd_hend fd_open fd_close].
@@ -110,14 +141,16 @@ Definition within_of (lo hi : nat) (d : fdesc) : Prop :=
 Lemma within_of_weaken lo hi lo' hi' d : lo' <= lo -> hi <= hi' -> within_of lo hi d -> within_of lo' hi' d.
 Proof. unfold within_of. intros; lia. Qed.
 
-Theorem items_of_order l off ts ds : items_of l off ts ds ->
+Theorem items_of_order Pc Ph l off ts ds : citems Pc Ph l off ts ds ->
   Forall (within_of off (off + length ts)) ds /\ StronglySorted ord ds.
 Proof.
   induction 1 as [off|off s r ds Hs Hr IH
                  |off kw words cond o body c r ds1 ds2 Hkw Hwords Hcond Hnt Ho Hc Hb IHb Hr IHr
                  |off pre1 o1 flat c1 post1 semi r ds Hpre1 Ho1 Hflat1 Hc1 Hpost1 Hsemi Hr IH
                  |off a tail o2 body2 c2 post2 semi2 r ds1 ds2 Hjs Hane Hop Hlast Htail Ho2 Hc2 Hpost2 Hsemi2 Hb2 IHb2 Hr2 IHr2
-                 |off pre0 hd nm_off hend_off o body c r ds1 ds2 Hpre Hhd Ho Hc Hb IHb Hflat Hr IHr].
+                 |off pre3 kn nm3 gs3 o3 body3 c3 post3 semi3 r ds1 ds2 Hl3 Hpre3 Hkn Hnm3 Hgs3 Ho3 Hc3 Hb3 IHb3 Hpost3 Hsemi3 Hr3 IHr3
+                 |off pre3 kn nm3 gs3 o3 body3 c3 post3 semi3 r ds1 ds2 Hl3 Hpre3 Hkn Hnm3 Hgs3 Ho3 Hc3 Hfl3 Eds Hpost3 Hsemi3 Hr3 IHr3
+                 |off pre0 hd nm_off hend_off o body c r ds1 ds2 Hpre Hhd HPh Ho Hc Hb IHb Hflat Hr IHr].
   - split; constructor.
   - destruct IH as [I1 I2]. split; [|exact I2].
     eapply Forall_impl; [|exact I1]. intros d. apply within_of_weaken; norm_len; lia.
@@ -133,6 +166,13 @@ Proof.
     + apply StronglySorted_app; [assumption | assumption|].
       intros x y Hx Hy. rewrite Forall_forall in B1, R1. apply B1 in Hx. apply R1 in Hy.
       unfold within_of in Hx, Hy. unfold ord, nested_in, after. lia.
+  - destruct IHb3 as [B1 B2]. destruct IHr3 as [R1 R2]. split.
+    + apply Forall_app. split; (eapply Forall_impl; [|eassumption]); intros d; apply within_of_weaken; norm_len; lia.
+    + apply StronglySorted_app; [assumption | assumption|].
+      intros x y Hx Hy. rewrite Forall_forall in B1, R1. apply B1 in Hx. apply R1 in Hy.
+      unfold within_of in Hx, Hy. unfold ord, nested_in, after. lia.
+  - subst ds1. cbn [app]. destruct IHr3 as [I1 I2]. split; [|exact I2].
+    eapply Forall_impl; [|exact I1]. intros d. apply within_of_weaken; norm_len; lia.
   - destruct IHb as [B1 B2]. destruct IHr as [R1 R2].
     destruct (fhead_offsets _ _ _ _ Hhd) as [Hn Hh]. split.
     + constructor.
@@ -149,27 +189,34 @@ Proof.
            cbn [fd_start fd_name fd_hend fd_open fd_close]. lia.
 Qed.
 
-Theorem items_of_flat_order l off ts ds : lang_nested l = false -> items_of l off ts ds -> StronglySorted after_ord ds.
+Theorem items_of_flat_order Pc Ph l off ts ds : lang_nested l = false -> citems Pc Ph l off ts ds -> StronglySorted after_ord ds.
 Proof.
   intros Hl.
   induction 1 as [off|off s r ds Hs Hr IH
                  |off kw words cond o body c r ds1 ds2 Hkw Hwords Hcond Hnt Ho Hc Hb IHb Hr IHr
                  |off pre1 o1 flat c1 post1 semi r ds Hpre1 Ho1 Hflat1 Hc1 Hpost1 Hsemi Hr IH
                  |off a tail o2 body2 c2 post2 semi2 r ds1 ds2 Hjs Hane Hop Hlast Htail Ho2 Hc2 Hpost2 Hsemi2 Hb2 IHb2 Hr2 IHr2
-                 |off pre0 hd nm_off hend_off o body c r ds1 ds2 Hpre Hhd Ho Hc Hb IHb Hflat Hr IHr].
+                 |off pre3 kn nm3 gs3 o3 body3 c3 post3 semi3 r ds1 ds2 Hl3 Hpre3 Hkn Hnm3 Hgs3 Ho3 Hc3 Hb3 IHb3 Hpost3 Hsemi3 Hr3 IHr3
+                 |off pre3 kn nm3 gs3 o3 body3 c3 post3 semi3 r ds1 ds2 Hl3 Hpre3 Hkn Hnm3 Hgs3 Ho3 Hc3 Hfl3 Eds Hpost3 Hsemi3 Hr3 IHr3
+                 |off pre0 hd nm_off hend_off o body c r ds1 ds2 Hpre Hhd HPh Ho Hc Hb IHb Hflat Hr IHr].
   - constructor.
   - exact IH.
   - apply StronglySorted_app; [assumption | assumption|].
-    intros x y Hx Hy. destruct (items_of_order _ _ _ _ Hb) as [B1 _]. destruct (items_of_order _ _ _ _ Hr) as [R1 _].
+    intros x y Hx Hy. destruct (items_of_order _ _ _ _ _ _ Hb) as [B1 _]. destruct (items_of_order _ _ _ _ _ _ Hr) as [R1 _].
     rewrite Forall_forall in B1, R1. apply B1 in Hx. apply R1 in Hy.
     unfold within_of in Hx, Hy. unfold after_ord, after. lia.
   - exact IH.
   - apply StronglySorted_app; [assumption | assumption|].
-    intros x y Hx Hy. destruct (items_of_order _ _ _ _ Hb2) as [B1 _]. destruct (items_of_order _ _ _ _ Hr2) as [R1 _].
+    intros x y Hx Hy. destruct (items_of_order _ _ _ _ _ _ Hb2) as [B1 _]. destruct (items_of_order _ _ _ _ _ _ Hr2) as [R1 _].
     rewrite Forall_forall in B1, R1. apply B1 in Hx. apply R1 in Hy.
     unfold within_of in Hx, Hy. unfold after_ord, after. lia.
+  - apply StronglySorted_app; [assumption | assumption|].
+    intros x y Hx Hy. destruct (items_of_order _ _ _ _ _ _ Hb3) as [B1 _]. destruct (items_of_order _ _ _ _ _ _ Hr3) as [R1 _].
+    rewrite Forall_forall in B1, R1. apply B1 in Hx. apply R1 in Hy.
+    unfold within_of in Hx, Hy. unfold after_ord, after. lia.
+  - subst ds1. cbn [app]. exact IHr3.
   - rewrite (Hflat Hl). cbn [app]. constructor; [exact IHr|].
-    destruct (items_of_order _ _ _ _ Hr) as [R1 _]. apply Forall_forall. intros x Hx.
+    destruct (items_of_order _ _ _ _ _ _ Hr) as [R1 _]. apply Forall_forall. intros x Hx.
     rewrite Forall_forall in R1. apply R1 in Hx. unfold within_of in Hx. unfold after_ord, after.
     cbn [fd_start fd_name fd_hend fd_open fd_close]. lia.
 Qed.
@@ -178,9 +225,9 @@ Qed.
 Theorem canonical_of_wf : forall l ts ds, l <> LPython -> canonical_program_of l ts ds -> wf_descs ts ds.
 Proof.
   intros l ts ds _ H. unfold canonical_program_of in H. constructor.
-  - pose proof (items_of_shape l 0 ts ds H [] [] eq_refl) as HS.
+  - apply items_of_citems in H. pose proof (items_of_shape _ _ l 0 ts ds H [] [] eq_refl) as HS.
     cbn [app] in HS. rewrite app_nil_r in HS. exact HS.
-  - destruct (items_of_order l 0 ts ds H) as [_ HS].
+  - apply items_of_citems in H. destruct (items_of_order _ _ l 0 ts ds H) as [_ HS].
     intros i j di dj Hij Hi Hj. exact (StronglySorted_nth ord ds HS i j di dj Hij Hi Hj).
 Qed.
 
@@ -188,7 +235,7 @@ Theorem canonical_of_flat : forall l ts ds, lang_nested l = false -> canonical_p
   forall c d, In c ds -> In d ds -> ~ nested_in c d.
 Proof.
   intros l ts ds Hl H c d Hc Hd Hn. unfold canonical_program_of in H.
-  destruct (items_of_order l 0 ts ds H) as [HW _]. pose proof (items_of_flat_order l 0 ts ds Hl H) as HS.
+  apply items_of_citems in H. destruct (items_of_order _ _ l 0 ts ds H) as [HW _]. pose proof (items_of_flat_order _ _ l 0 ts ds Hl H) as HS.
   rewrite Forall_forall in HW. pose proof (HW c Hc) as Wc. pose proof (HW d Hd) as Wd.
   unfold within_of in Wc, Wd. unfold nested_in in Hn.
   apply In_nth_error in Hc as [i Hi]. apply In_nth_error in Hd as [j Hj].
